@@ -13,7 +13,14 @@ Days  == {N(106751), N(25567), N(1), 0, 1, 59, 11016, 11017, 19722, 19723, 19782
 DaysS == {N(25567), N(1), 0, 11016, 19782, 19783}
 Secs  == {0, 1, 3599, 43200, 86399}
 Nss   == {0, 1, 999, 1000, 999999, 1000000, 999999999}
-Grid  == {<<d, s, n>> : d \in Days, s \in Secs, n \in Nss}
+\* the two ends of the nanosecond unit's range (i64 nanoseconds; the least value is the NaT sentinel):
+\* 1677-09-21T00:12:43.145224192 .. 2262-04-11T23:47:16.854775807
+NsEdge == {<<N(106752), 763, 145224194>>, <<N(106752), 763, 500000000>>, <<N(106752), 763, 999999999>>,
+           <<N(106752), 764, 0>>, <<N(106752), 764, 1>>, <<N(106752), 86399, 999999999>>,
+           <<106751, 85636, 854775807>>, <<106751, 85636, 854775806>>, <<106751, 85636, 0>>, <<106751, 85635, 999999999>>}
+Grid  == {<<d, s, n>> : d \in Days, s \in Secs, n \in Nss} \cup NsEdge
+\* instants further apart than an i64 of nanoseconds can count (292 years)
+FarS  == {<<N(106751), 0, 0>>, <<N(106751), 86399, 999000000>>, <<106751, 0, 0>>, <<106750, 86399, 999000000>>}
 GridS == {<<d, s, n>> : d \in DaysS, s \in {0, 86399}, n \in {0, 999000000}}
 
 \* month-free durations built from the eight fixed units, both signs, and two compounds
@@ -33,12 +40,12 @@ MonthCounts == {N(1200), N(13), N(12), N(1), 1, 2, 11, 12, 13, 1200}
 Init ==
     \/ /\ "unit" \in Kinds   /\ c \in {[kind |-> "unit", t |-> t] : t \in Grid}
     \/ /\ "addsub" \in Kinds /\ c \in {[kind |-> "addsub", t |-> t, a |-> a] : t \in GridS, a \in FixedDurs}
-    \/ /\ "diff" \in Kinds   /\ c \in {[kind |-> "diff", a |-> a, b |-> b] : a \in GridS, b \in GridS}
+    \/ /\ "diff" \in Kinds   /\ c \in {[kind |-> "diff", a |-> a, b |-> b] : a \in GridS \cup FarS, b \in GridS \cup FarS}
     \/ /\ "months" \in Kinds /\ c \in {[kind |-> "months", t |-> <<d, s, 0>>, m |-> m] :
                                          d \in MonthDates, s \in {0, 37230}, m \in MonthCounts}
     \/ /\ "group" \in Kinds  /\ c \in {[kind |-> "group", a |-> a, b |-> b, k |-> k] :
                                          a \in AllDurs, b \in AllDurs, k \in {N(2), 0, 3}}
-    \/ /\ "trunc" \in Kinds  /\ c \in {[kind |-> "trunc", t |-> t] : t \in Grid \cup {<<d, 37230, 123456789>> : d \in MonthDates}}
+    \/ /\ "trunc" \in Kinds  /\ c \in {[kind |-> "trunc", t |-> t] : t \in (Grid \ NsEdge) \cup {<<d, 37230, 123456789>> : d \in MonthDates}}
     \/ /\ "tod" \in Kinds    /\ c \in {[kind |-> "tod", h |-> h, mi |-> mi, s |-> s, sub |-> sub] :
                                          h \in {0, 1, 12, 23}, mi \in {0, 30, 59}, s \in {0, 59}, sub \in {0, 1, 123456789, 999999999}}
 Next == UNCHANGED vars
